@@ -80,9 +80,12 @@ def make_quantity(node):
     if "qe" in node:
         from . import expr as E
 
+        nm = node.get("nm", "")
         if node.get("form") == "str":
-            return E.as_string(node["qe"])
-        return eval(E.as_lambda_src(node["qe"], RECMODE[0]), {})
+            s = E.as_string(node["qe"])
+            return named(nm, s) if nm and nm != s else s     # (a string expression's own name is its text)
+        fn = eval(E.as_lambda_src(node["qe"], RECMODE[0]), {})
+        return named(nm, fn) if nm else fn
     field = node["q"]
     if node["k"] == "Bag":
         field = {"N": field, "N2": "N2", "S": "cS"}[node["range"]]
@@ -147,6 +150,11 @@ def build(d, g, shared=None):
         out = getattr(hg, k)(*[B(c) for c in d["vals"]])
     else:
         raise ValueError(k)
+    if shared is not None:
+        # flows marked inst are installed by assignment after construction (the constructors copy their arguments)
+        for key, attr in (("under", "underflow"), ("over", "overflow"), ("nan", "nanflow")):
+            if key in d and d[key].get("inst"):
+                setattr(out, attr, B(d[key]))
     if shared is not None and d.get("share"):
         shared[d["share"]] = out
     return out
